@@ -190,6 +190,11 @@ def corpus(prop):
         ("negative-inner", {"cls": "Node", "tree": [[], [[], [], [], [], []]], "par": u, "stratum": "corpus"}),
         ("deep-contour", {"cls": "Node", "tree": [[[[[], []]]], [[[[], []]]]],
                           "par": [1.0, 3.0, 1.0, 0.0, 0.0], "stratum": "corpus"}),
+        # r/{A/a/a1..a4, B/b, C/c/c1..c4}: C meets A only two levels down, past the shallow B
+        ("sandwich", {"cls": "Node", "tree": [[[[], [], [], []]], [[]], [[[], [], [], []]]],
+                      "par": u, "stratum": "corpus"}),
+        ("sandwich-nested", {"cls": "Node", "tree": [[], [[[[], [], []]], [], [[]], [[[], [], [], []]]]],
+                             "par": [1.0, 2.0, 1.5, 0.0, 0.0], "stratum": "corpus"}),
     ]
     return out
 
@@ -287,6 +292,50 @@ def gen_negwide(rng):
     return [[], kids]
 
 
+def gen_sandwich(rng):
+    """3-5 siblings: two (or more) of them carry deep, wide subtrees, the ones in between are
+    shallow (leaf, one child, short path), so that the deep subtrees collide only two or more levels
+    down and only the comparison with a *farther* left sibling separates them; also nested one
+    level down and with extra siblings outside the sandwich"""
+    def deep():
+        d = rng.choice([1, 1, 2])                  # length of the stem below the sibling
+        w = rng.randint(3, 5)                      # width of the fan at the bottom
+        fan = [[] for _ in range(w)]
+        if rng.random() < 0.25:
+            fan[rng.randrange(w)] = [[] for _ in range(rng.randint(1, 2))]
+        t = fan
+        for _ in range(d):
+            t = [t] if rng.random() < 0.7 else ([t, []] if rng.random() < 0.5 else [[], t])
+        return t
+
+    def shallow():
+        r = rng.random()
+        if r < 0.3:
+            return []
+        if r < 0.7:
+            return [[]]
+        if r < 0.85:
+            return [[], []]
+        return [[[]]]
+
+    n = rng.randint(3, 5)
+    sibs = [shallow() for _ in range(n)]
+    lo = rng.randrange(0, n - 2)
+    hi = rng.randrange(lo + 2, n)
+    sibs[lo] = deep()
+    sibs[hi] = deep()
+    if n >= 5 and rng.random() < 0.3:
+        sibs[rng.randrange(n)] = deep()
+    r = rng.random()
+    if r < 0.55:
+        return sibs
+    if r < 0.7:
+        return [sibs]
+    if r < 0.85:
+        return [sibs, rng.choice([[], [[]]])]
+    return [rng.choice([[], [[]]]), sibs]
+
+
 def tsize(t):
     return 1 + sum(tsize(k) for k in t)
 
@@ -342,7 +391,7 @@ def generate(prop, rng, tier):
                 yield "exhaustive<=6", {"cls": "Node", "tree": t, "par": list(EXH_PARAMS[k % len(EXH_PARAMS)]),
                                         "stratum": "exhaustive"}
                 k += 1
-    shapes = ["wide", "deep", "mixed", "mixed", "binary", "comb", "comb", "zigzag", "zigzag", "negwide", "path", "star"]
+    shapes = ["wide", "deep", "mixed", "mixed", "binary", "comb", "comb", "zigzag", "zigzag", "negwide", "sandwich", "sandwich", "path", "star"]
     pkinds = ["unit", "dyadic", "dyadic", "dyadic", "nondyadic", "mixed"]
     for i in range(count):
         shape = rng.choice(shapes)
@@ -361,6 +410,10 @@ def generate(prop, rng, tier):
             t = gen_negwide(rng)
             while tsize(t) > 22:
                 t = gen_negwide(rng)
+        elif shape == "sandwich":
+            t = gen_sandwich(rng)
+            while tsize(t) > 24:
+                t = gen_sandwich(rng)
         else:
             t = gen_tree(rng, shape, nmax)
         pk = rng.choice(pkinds)
@@ -411,8 +464,8 @@ def nontrivial(prop, case, obs):
 
 
 def rule(prop):
-    return ("fresh Node/BaseNode trees (<= 22 nodes; strata wide / deep / mixed / binary / comb = 3-6 siblings with "
-            "multi-level subtrees / zigzag = facing contours that continue below a sibling of the contour node, depth <= 7 / negwide = the smallest preliminary x is at a leaf that is not the left-most one / path / star, plus every ordered tree with <= 6 nodes (quick) or <= 7 nodes x 6 "
+    return ("fresh Node/BaseNode trees (<= 24 nodes; strata wide / deep / mixed / binary / comb = 3-6 siblings with "
+            "multi-level subtrees / zigzag = facing contours that continue below a sibling of the contour node, depth <= 7 / negwide = the smallest preliminary x is at a leaf that is not the left-most one / sandwich = 3-5 siblings, deep wide subtrees separated by shallow ones, also nested / path / star, plus every ordered tree with <= 6 nodes (quick) or <= 7 nodes x 6 "
             "parameter sets (thorough)) x positive separations (unit / dyadic / non-dyadic / mixed) and non-negative "
             "offsets; non-trivial = >= 4 nodes, some fan-out >= 2 and depth >= 3; distinct by canonical JSON hash")
 
